@@ -41,13 +41,13 @@ VARIANTS = [
       "lenght = IntegrateJordan.lenght(self)\n        area = IntegrateJordan.area(self)\n        self.__lenght = lenght if area > 0 else -lenght",
       "self.__lenght = IntegrateJordan.lenght(self)\n        if IntegrateJordan.area(self) <= 0:\n            self.__lenght *= -1",
       ["R11.2"]),
-    M2("scale-unvalidated-both-levels", [("jordancurve.JordanCurve.scale", "float(yscale)\n", ""),
-                                         ("polygon.Point2D.scale", "float(yscale)\n", "")], ["R11.3"], "JordanCurve.scale"),
-    M2("rotate-unvalidated-both-levels", [("jordancurve.JordanCurve.rotate", "float(angle)\n", ""),
-                                          ("polygon.Point2D.rotate", "float(angle)\n", "")], ["R11.3"], "JordanCurve.rotate"),
+    M2("scale-unvalidated-both-levels", [("jordancurve.JordanCurve.scale", "float(yscale)", "pass"),
+                                         ("polygon.Point2D.scale", "float(yscale)", "pass")], ["R11.3"], "JordanCurve.scale"),
+    M2("rotate-unvalidated-both-levels", [("jordancurve.JordanCurve.rotate", "float(angle)", "pass"),
+                                          ("polygon.Point2D.rotate", "float(angle)", "pass")], ["R11.3"], "JordanCurve.rotate"),
     M("shape-move-writes-first", "shape.DefinedShape.move", "point = Point2D(*point)\n",
       "point = Point2D(*point)\n    self.jordans[0].vertices[0].move(point)\n", ["R11.3"]),
-    T("scale-validated-at-point-level-only", "jordancurve.JordanCurve.scale", "float(yscale)\n", ""),
+    T("scale-validated-at-point-level-only", "jordancurve.JordanCurve.scale", "float(yscale)", "pass"),
     T("move-validate-by-assert", "jordancurve.JordanCurve.move", "point = Point2D(*point)", "point = Point2D(*point)\n    assert isinstance(point, Point2D)"),
     T("F3-loop-as-any", "shape.SimpleShape._contains_shape", F3_OLD,
       "inverted = ~self\n        return any((inverted in ~subshape for subshape in other.subshapes))"),
